@@ -90,8 +90,13 @@ def second (self : String) (t : Nat) (sid : Bytes) (holders : List String) (e : 
   | .announces S => (s!"sel={sel};r=-;start={toks S};run=c:{toks S};res=ok", "retry:coordinates:announced")
   | .neverReady => (s!"sel={sel};r=-;start=none;run=-;res=ok", "retry:coordinates:never-ready")
 
+/-- what the relayer is expected to collect if it coordinates the new attempt itself: `(t, ready senders)`, when the
+    intended election rule makes it the coordinator (`none` otherwise) -/
+abbrev Collect := Option (Nat × List String)
+
 /-- C11 on the implementation's observed behaviour, for an unambiguous cause `k` -/
-def p11 (self : String) (holders : List String) (k : Class String) (retryable claimantGiven : Bool) (impl : String) : Bool :=
+def p11 (self : String) (holders : List String) (k : Class String) (retryable claimantGiven : Bool) (impl : String)
+    (collect : Collect := none) : Bool :=
   if retryable && decide (self ∈ culprits k) then true else   -- outside second_attempt_clean (self_culprit_point)
   match field impl "sel", field impl "start", field impl "run", field impl "res" with
   | some sel, some start, some run, some res =>
@@ -100,7 +105,7 @@ def p11 (self : String) (holders : List String) (k : Class String) (retryable cl
     match k with
     | .unknown => ended
     | .tss _ false => ended
-    | .subset => sel == "none" && start == "none" && res == "ok" && (!claimantGiven || run == "w:p1")
+    | .subset => sel == "none" && start == "none" && res == "ok" && (!claimantGiven || (run.startsWith "w:" && !run.contains '/'))
     | _ =>
       let K := culprits k
       let clean (s : String) : Bool := match peers s with
@@ -108,14 +113,32 @@ def p11 (self : String) (holders : List String) (k : Class String) (retryable cl
         | none => false
       let selOk := sel != "none" && clean sel && (match peers sel with | some ps => ps.all (· ∈ holders) | none => false)
       let startOk := start == "none" || clean start
+      -- "starts a new attempt": when this relayer coordinates it, the announcement as a whole meets C07's clause — a subset
+      -- without culprits, and announced as soon as t distinct eligible key holders reported ready (AnnouncedOk)
+      let liveOk := match collect with
+        | none => true
+        | some (t, arrivals) =>
+          match (if start = "none" then some none else (peers start).map some) with
+          | some out => decide (AnnouncedOk (⟨self, holders, t, K⟩ : ICfg String) arrivals out) || !decide (self ∈ holders)
+          | none => false
       let runOk := (items run "/").all fun r =>
-        if r.startsWith "c:" then clean (r.drop 2).toString else r == "w:p1"
+        if r.startsWith "c:" then clean (r.drop 2).toString else r.startsWith "w:"
       -- the coordinator this relayer answers in the new attempt is no culprit
       let followOk := match field impl "r" with
         | some r => r == "-" || clean r
         | none => false
-      selOk && startOk && runOk && followOk && res == "ok"
+      selOk && startOk && liveOk && runOk && followOk && res == "ok"
   | _, _, _, _ => false
+
+/-- does the relayer coordinate the new attempt under the intended election rule (then: what it collects) -/
+def collectOf (self : String) (t : Nat) (sid : Bytes) (holders : List String) (k : Class String) (retryable : Bool)
+    (claimant : Option String) (arrivals : List String) : Collect :=
+  if !retryable then none else
+  match plan k with
+  | .retry ex =>
+    let key := keyOf sid (keyTab sid (self :: holders ++ claimant.toList))
+    if bullyElectedListed key self (nextCandidates holders ex) claimant = self then some (t, arrivals) else none
+  | _ => none
 
 def handle (op : String) (args : List String) (impl : String) : Option Verdict :=
   match op, args with
@@ -140,7 +163,7 @@ def handle (op : String) (args : List String) (impl : String) : Option Verdict :
     | some e =>
       let (m, tag) := second self t sid holders e true claimant arrivals quiet
       let ok := match intended e with
-        | some k => p11 self holders k true claimant.isSome impl
+        | some k => p11 self holders k true claimant.isSome impl (collectOf self t sid holders k true claimant arrivals)
         | none => true
       return ⟨m, ok, s!"handle:{classTag (intended e)}:{tag}"⟩
   | "exec", [self, t, sid, holders, retryable, first, claimant, arrivals] => some <| Id.run do
@@ -159,7 +182,8 @@ def handle (op : String) (args : List String) (impl : String) : Option Verdict :
       if c = self then return ⟨"selfcoord", impl == "selfcoord", "exec:selfcoord"⟩
       let e : Err String := .wrap (.coord (some c))
       let (m, tag) := second self t sid holders e retryable claimant arrivals quiet
-      return ⟨"run1=none;" ++ m, p11 self holders (.coord (some c)) retryable claimant.isSome impl, s!"exec:silent:retryable={retryable}:{tag}"⟩
+      return ⟨"run1=none;" ++ m, p11 self holders (.coord (some c)) retryable claimant.isSome impl
+        (collectOf self t sid holders (.coord (some c)) retryable claimant arrivals), s!"exec:silent:retryable={retryable}:{tag}"⟩
     -- `f:<code>`: watchExecution fails first (fail message from the coordinator), then the cancelled Run with <code>
     let withFail := first.startsWith "f:"
     let some (some leaf) := parseLeaf (if withFail then (first.drop 2).toString else first) | return bad
@@ -172,9 +196,39 @@ def handle (op : String) (args : List String) (impl : String) : Option Verdict :
     if run1 = "none" then return ⟨"BADSCENARIO", false, "exec:badscenario"⟩
     let (m, tag) := second self t sid holders e retryable claimant arrivals quiet
     let ok := match intended e with
-      | some k => p11 self holders k retryable claimant.isSome impl
+      | some k => p11 self holders k retryable claimant.isSome impl (collectOf self t sid holders k retryable claimant arrivals)
       | none => true
     return ⟨s!"run1={run1};" ++ m, ok, s!"exec:{if c = self then "coordinator" else "participant"}:withfail={withFail}:retryable={retryable}:{classTag (intended e)}:{tag}"⟩
+  | "realholders", [_] => some ⟨impl, true, "realholders"⟩   -- (fixture facts; inputs of the `real` lines)
+  | "real", [_i, self, t, sid, holders, first, partner, claimant, ready2] => some <| Id.run do
+    let some self := peerOf self | return bad
+    let some t := t.toNat? | return bad
+    let some sid := fromHex sid | return bad
+    let some holders := peers holders | return bad
+    let some partner := peerOf partner | return bad
+    let some claimant := (if claimant = "-" then some none else (peerOf claimant).map some) | return bad
+    let some ready2 := peers ready2 | return bad
+    let key := keyOf sid (keyTab sid holders)
+    let some c := staticCoordinator key holders | return bad
+    -- first attempt: the subset this relayer announces (coordinator) or is told (participant); who the other member is
+    let (run1, other) := if c = self then
+        match initiate key ⟨self, holders, t, []⟩ [partner] with
+        | some (_, S) => ("c:" ++ toks S, partner)
+        | none => ("none", partner)
+      else if first = "s" then ("w:" ++ toks [c, partner], c) else ("w:" ++ toks [c, self], c)
+    let some leaf := (match first with
+      | "m" => some Err.comm | "mp" => some Err.comm
+      | "t" => some (Err.tss [other] true) | "s" => some Err.subset | _ => none) | return bad
+    let e : Err String := .wrap (.wrap leaf)
+    let (m0, tag) := second self t sid holders e true claimant (ready2 ++ [peerTab.getD 9 ""])
+    -- the replacement start a claimant sends carries the real params [claimant, self]
+    let m := match claimant with
+      | some r => m0.replace "w:p1" ("w:" ++ toks [r, self])
+      | none => m0
+    let ok := match intended e with
+      | some k => p11 self holders k true claimant.isSome impl (collectOf self t sid holders k true claimant ready2)
+      | none => true
+    return ⟨s!"run1={run1};" ++ m, ok, s!"real:{if c = self then "coordinator" else "participant"}:{first}:{tag}"⟩
   | _, _ => none
 
 end Sygma.Drv.C11
